@@ -68,6 +68,14 @@ pub fn ref_dec(p: &Plan, offered: &[u8]) -> RefDec {
     }
 }
 
+/// by-value and by-reference sibling impls must produce the same limbs
+fn both(ws: &mut WriteSeam, a: Vec<u64>, b: Vec<u64>) -> Num {
+    if a != b {
+        ws.ctx.violate("ENC!=REF", "by-value and by-reference conversions differ");
+    }
+    limbs_to_num(&a)
+}
+
 fn limbs_to_num(l: &[u64]) -> Num {
     let mut be = vec![];
     for x in l.iter().rev() {
@@ -127,23 +135,29 @@ pub fn encode<const B: usize, const L: usize>(ws: &mut WriteSeam, p: &Plan, vals
         5 => {
             use ark_ff_03::biginteger::*;
             match p.bits {
-                64 => limbs_to_num(&BigInteger64::from(num::to_uint::<64, 1>(v)).0),
-                128 => limbs_to_num(&BigInteger128::from(num::to_uint::<128, 2>(v)).0),
-                256 => limbs_to_num(&BigInteger256::from(num::to_uint::<256, 4>(v)).0),
-                320 => limbs_to_num(&BigInteger320::from(num::to_uint::<320, 5>(v)).0),
-                384 => limbs_to_num(&BigInteger384::from(num::to_uint::<384, 6>(v)).0),
-                448 => limbs_to_num(&BigInteger448::from(num::to_uint::<448, 7>(v)).0),
-                _ => limbs_to_num(&BigInteger768::from(num::to_uint::<768, 12>(v)).0),
+                64 => both(ws, BigInteger64::from(num::to_uint::<64, 1>(v)).0.to_vec(), BigInteger64::from(&num::to_uint::<64, 1>(v)).0.to_vec()),
+                128 => both(ws, BigInteger128::from(num::to_uint::<128, 2>(v)).0.to_vec(), BigInteger128::from(&num::to_uint::<128, 2>(v)).0.to_vec()),
+                256 => both(ws, BigInteger256::from(num::to_uint::<256, 4>(v)).0.to_vec(), BigInteger256::from(&num::to_uint::<256, 4>(v)).0.to_vec()),
+                320 => both(ws, BigInteger320::from(num::to_uint::<320, 5>(v)).0.to_vec(), BigInteger320::from(&num::to_uint::<320, 5>(v)).0.to_vec()),
+                384 => both(ws, BigInteger384::from(num::to_uint::<384, 6>(v)).0.to_vec(), BigInteger384::from(&num::to_uint::<384, 6>(v)).0.to_vec()),
+                448 => both(ws, BigInteger448::from(num::to_uint::<448, 7>(v)).0.to_vec(), BigInteger448::from(&num::to_uint::<448, 7>(v)).0.to_vec()),
+                _ => both(ws, BigInteger768::from(num::to_uint::<768, 12>(v)).0.to_vec(), BigInteger768::from(&num::to_uint::<768, 12>(v)).0.to_vec()),
             }
         }
         6 => {
             use ark_ff_04::PrimeField;
             let f = ark_bn254_04::Fr::try_from(num::to_uint::<256, 4>(v)).map_err(|e| format!("{e:?}"))?;
+            if ark_bn254_04::Fr::try_from(&num::to_uint::<256, 4>(v)).ok() != Some(f) {
+                ws.ctx.violate("ENC!=REF", "Fp::try_from(Uint) and try_from(&Uint) differ");
+            }
             limbs_to_num(&f.into_bigint().0)
         }
         _ => {
             use ark_ff_03::PrimeField;
             let f = ark_bn254_03::Fr::try_from(num::to_uint::<256, 4>(v)).map_err(|e| format!("{e:?}"))?;
+            if ark_bn254_03::Fr::try_from(&num::to_uint::<256, 4>(v)).ok() != Some(f) {
+                ws.ctx.violate("ENC!=REF", "Fp::try_from(Uint) and try_from(&Uint) differ");
+            }
             limbs_to_num(&f.into_repr().0)
         }
     };
@@ -201,33 +215,94 @@ pub fn decode<const B: usize, const L: usize>(rs: &mut ReadSeam, p: &Plan) -> De
                 return Err("harness: From<BigInt<N>> documents a panic for out-of-range limbs".into());
             }
             let l: [u64; L] = num_to_limbs(&mag).ok_or("harness: too wide")?;
-            let u = <Uint<B, L> as From<_>>::from(ark_ff_04::BigInt::<L>::new(l));
+            let big = ark_ff_04::BigInt::<L>::new(l);
+            let u = <Uint<B, L> as From<_>>::from(big);
+            if <Uint<B, L> as From<&ark_ff_04::BigInt<L>>>::from(&big) != u {
+                rs.ctx.violate("LIE", "From<BigInt> and From<&BigInt> disagree");
+            }
             rs.ctx.observe("From<ark BigInt>", &u)
         }
         5 => {
             use ark_ff_03::biginteger::*;
             let bad = || "harness: magnitude too wide".to_string();
             match p.bits {
-                64 => rs.ctx.observe("From<BigInteger64>", &<Uint<64, 1> as From<_>>::from(BigInteger64(num_to_limbs(&mag).ok_or_else(bad)?))),
-                128 => rs.ctx.observe("From<BigInteger128>", &<Uint<128, 2> as From<_>>::from(BigInteger128(num_to_limbs(&mag).ok_or_else(bad)?))),
-                256 => rs.ctx.observe("From<BigInteger256>", &<Uint<256, 4> as From<_>>::from(BigInteger256(num_to_limbs(&mag).ok_or_else(bad)?))),
-                320 => rs.ctx.observe("From<BigInteger320>", &<Uint<320, 5> as From<_>>::from(BigInteger320(num_to_limbs(&mag).ok_or_else(bad)?))),
-                384 => rs.ctx.observe("From<BigInteger384>", &<Uint<384, 6> as From<_>>::from(BigInteger384(num_to_limbs(&mag).ok_or_else(bad)?))),
-                448 => rs.ctx.observe("From<BigInteger448>", &<Uint<448, 7> as From<_>>::from(BigInteger448(num_to_limbs(&mag).ok_or_else(bad)?))),
-                _ => rs.ctx.observe("From<BigInteger768>", &<Uint<768, 12> as From<_>>::from(BigInteger768(num_to_limbs(&mag).ok_or_else(bad)?))),
+                64 => {
+                    let big = BigInteger64(num_to_limbs(&mag).ok_or_else(bad)?);
+                    let u = <Uint<64, 1> as From<_>>::from(big);
+                    if <Uint<64, 1> as From<&BigInteger64>>::from(&big) != u {
+                        rs.ctx.violate("LIE", "From<BigInteger> and From<&BigInteger> disagree");
+                    }
+                    rs.ctx.observe("From<BigInteger64>", &u)
+                },
+                128 => {
+                    let big = BigInteger128(num_to_limbs(&mag).ok_or_else(bad)?);
+                    let u = <Uint<128, 2> as From<_>>::from(big);
+                    if <Uint<128, 2> as From<&BigInteger128>>::from(&big) != u {
+                        rs.ctx.violate("LIE", "From<BigInteger> and From<&BigInteger> disagree");
+                    }
+                    rs.ctx.observe("From<BigInteger128>", &u)
+                },
+                256 => {
+                    let big = BigInteger256(num_to_limbs(&mag).ok_or_else(bad)?);
+                    let u = <Uint<256, 4> as From<_>>::from(big);
+                    if <Uint<256, 4> as From<&BigInteger256>>::from(&big) != u {
+                        rs.ctx.violate("LIE", "From<BigInteger> and From<&BigInteger> disagree");
+                    }
+                    rs.ctx.observe("From<BigInteger256>", &u)
+                },
+                320 => {
+                    let big = BigInteger320(num_to_limbs(&mag).ok_or_else(bad)?);
+                    let u = <Uint<320, 5> as From<_>>::from(big);
+                    if <Uint<320, 5> as From<&BigInteger320>>::from(&big) != u {
+                        rs.ctx.violate("LIE", "From<BigInteger> and From<&BigInteger> disagree");
+                    }
+                    rs.ctx.observe("From<BigInteger320>", &u)
+                },
+                384 => {
+                    let big = BigInteger384(num_to_limbs(&mag).ok_or_else(bad)?);
+                    let u = <Uint<384, 6> as From<_>>::from(big);
+                    if <Uint<384, 6> as From<&BigInteger384>>::from(&big) != u {
+                        rs.ctx.violate("LIE", "From<BigInteger> and From<&BigInteger> disagree");
+                    }
+                    rs.ctx.observe("From<BigInteger384>", &u)
+                },
+                448 => {
+                    let big = BigInteger448(num_to_limbs(&mag).ok_or_else(bad)?);
+                    let u = <Uint<448, 7> as From<_>>::from(big);
+                    if <Uint<448, 7> as From<&BigInteger448>>::from(&big) != u {
+                        rs.ctx.violate("LIE", "From<BigInteger> and From<&BigInteger> disagree");
+                    }
+                    rs.ctx.observe("From<BigInteger448>", &u)
+                },
+                _ => {
+                    let big = BigInteger768(num_to_limbs(&mag).ok_or_else(bad)?);
+                    let u = <Uint<768, 12> as From<_>>::from(big);
+                    if <Uint<768, 12> as From<&BigInteger768>>::from(&big) != u {
+                        rs.ctx.violate("LIE", "From<BigInteger> and From<&BigInteger> disagree");
+                    }
+                    rs.ctx.observe("From<BigInteger768>", &u)
+                },
             }
         }
         6 => {
             use ark_ff_04::PrimeField;
             let l: [u64; 4] = num_to_limbs(&mag).ok_or("harness: too wide")?;
             let f = ark_bn254_04::Fr::from_bigint(ark_ff_04::BigInt::<4>::new(l)).ok_or("harness: not in field")?;
-            rs.ctx.observe("From<Fr 0.4>", &<Uint<256, 4> as From<_>>::from(f))
+            let u = <Uint<256, 4> as From<_>>::from(f);
+            if <Uint<256, 4> as From<&ark_bn254_04::Fr>>::from(&f) != u {
+                rs.ctx.violate("LIE", "From<Fp> and From<&Fp> disagree");
+            }
+            rs.ctx.observe("From<Fr 0.4>", &u)
         }
         _ => {
             use ark_ff_03::PrimeField;
             let l: [u64; 4] = num_to_limbs(&mag).ok_or("harness: too wide")?;
             let f = ark_bn254_03::Fr::from_repr(ark_ff_03::biginteger::BigInteger256(l)).ok_or("harness: not in field")?;
-            rs.ctx.observe("From<Fr 0.3>", &<Uint<256, 4> as From<_>>::from(f))
+            let u = <Uint<256, 4> as From<_>>::from(f);
+            if <Uint<256, 4> as From<&ark_bn254_03::Fr>>::from(&f) != u {
+                rs.ctx.violate("LIE", "From<Fp> and From<&Fp> disagree");
+            }
+            rs.ctx.observe("From<Fr 0.3>", &u)
         }
     };
     rs.advance(s.len());
